@@ -102,7 +102,7 @@ def parse_template(text, variant=None):
             if len(parts) != 3:
                 raise SystemExit(f"template: bad directive: {s}")
             d = dict(kind=m.group(1), file=parts[0], container=parts[1], name=parts[2],
-                     ret=None, subs=[], resubs=[], excepts=[], loops={}, hints=[], spec=[], prologue=[], tags=[], attrs=[], specfrom=None, extbody=False, keepattr=False, nobody=False,
+                     ret=None, subs=[], resubs=[], excepts=[], loops={}, loopbodies={}, hints=[], spec=[], prologue=[], tags=[], attrs=[], specfrom=None, extbody=False, keepattr=False, nobody=False,
                      line=i + 1)
             cur = None
             i += 1
@@ -132,6 +132,10 @@ def parse_template(text, variant=None):
                     d["resubs"].append((mm.group(1), mm.group(2)))
                 elif s.startswith("//@except"):
                     d["excepts"].extend(s.split()[1:])
+                elif s.startswith("//@loopbody"):
+                    cur = []
+                    key = s.split()[1]
+                    d["loopbodies"][key if key == "*" else int(key)] = cur
                 elif s.startswith("//@loop"):
                     cur = []
                     key = s.split()[1]
@@ -374,6 +378,7 @@ def splice_fn(text, d, log):
     d = dict(d)
     d["spec"] = [l.replace("{NAME}", nm) for l in d["spec"]]
     d["loops"] = {k: [l.replace("{NAME}", nm) for l in v] for k, v in d["loops"].items()}
+    d["loopbodies"] = dict(d.get("loopbodies", {}))
     d["prologue"] = [l.replace("{NAME}", nm) for l in d["prologue"]]
     # substitutions first (on verbatim text)
     for old, new, opt in d["subs"]:
@@ -461,6 +466,9 @@ def splice_fn(text, d, log):
                         q += 1
                     inv = "\n" + "\n".join("        " + l for l in d["loops"].get(ordinal, d["loops"].get("*"))) + "\n    "
                     inserts.append((toks[q].start, toks[q].start, inv))
+                    lb = d.get("loopbodies", {}).get(ordinal, d.get("loopbodies", {}).get("*"))
+                    if lb:
+                        inserts.append((toks[q].end, toks[q].end, "\n" + "\n".join("            " + l for l in lb) + "\n"))
             k += 1
         for o in d["loops"]:
             if o != "*" and o > ordinal:
